@@ -4,7 +4,7 @@ from .jobs import *
 
 REQUIRED_WITNESSES = ['C', 'C+hdr', 'P', 'E:HeaderName', 'E:HeaderValue', 'E:NewLine', 'E:TooManyHeaders']
 BOUNDS = {
-    'quick': 'parse_headers: every buffer of length 0..=10 (capacity 3), 0..=9 (capacities 0,1,2); Request/Response behind a concrete start line: every header block of length 0..=8; single-header templates with a symbolic value (any byte but CR/LF) of length 0..=25 and a symbolic name (any byte but a colon) of length 1..=40',
+    'quick': 'parse_headers: every buffer of length 0..=10 (capacity 3), 0..=9 (capacities 0,1,2); Request/Response behind a concrete start line: every header block of length 0..=8; single-header templates with a symbolic value (any byte but CR/LF) of length 0..=25 and a symbolic name (any byte but a colon) of length 1..=40; long runs (7..33 bytes) of whitespace after the colon and before the line end with a 2-byte symbolic window, a second header behind',
     'thorough': 'parse_headers: every buffer of length 0..=14 (capacity 3), 0..=11 (capacities 0,1,2); requests/responses: header blocks 0..=11; value/name templates to 100',
 }
 OUTSIDE = 'longer header blocks; non-default configurations (C14); SIMD back ends (C12/C13 tie them to the word-at-a-time scanners)'
@@ -52,5 +52,6 @@ def jobs(tier, seed):
         J.append(product_job(P, f'name-L{L}', G, sc('headers', L, prefix=b'', suffix=b': v\r\n\r\n', cap=1, fixed={i: NOCOLON for i in range(L)}),
                              60 if tier == 'quick' else 300, f'{L} symbolic name bytes (any value but ":") + ": v" CRLFCRLF', family='name', mandatory=(L <= 16)))
     J += sliding_families(P, G, tier, default_flags=True, step=T(tier, 2, 1))
+    J += longrun_families(P, G, tier, ('ows-run', 'trail-ws-run'))
     J += neighbourhood_families(P, G, tier, default_flags=True)
     return J
